@@ -37,6 +37,7 @@ fn lookup(id: &str) -> Option<(RunFn, ReplayFn)>
         "C08" => Some((props::audits::run_c08, props::audits::replay_c08)),
         "C09" => Some((props::audits::run_c09, props::audits::replay_c09)),
         "C20" => Some((props::audits::run_c20, props::audits::replay_c20)),
+        "C11" => Some((props::c11::run, props::c11::replay)),
         "C12" => Some((props::c12::run, props::c12::replay)),
         "C13" => Some((props::c13::run, props::c13::replay)),
         "C14" => Some((props::c14::run, props::c14::replay)),
